@@ -137,7 +137,7 @@ DICT_CASES = [({}, {0: (1,)}), ({0: (1,)}, {0: (2,)}), ({0: (1,)}, {1: (0, 2)}),
 PAIR_CASES = [(((0,), (1,)), ((2,), (0,))), (((), ()), ((1,), (3,)))]        # where-format masks: (rows, cols)
 
 
-@contract('C11/mask._extend_mask', ['C11'], MK + '::_extend_mask', native=False)
+@contract('C11/mask._extend_mask', ['C11', 'C05'], MK + '::_extend_mask', native=False)
 def extend_mask(h):
     """the termination rebuilt after a collapse has mask = old mask UNION what was applied (sets: union; per-measure dicts:
     union per measure, measures not masked before are added, measures not collapsed now are kept; where-format pairs:
@@ -210,7 +210,7 @@ TREES = [('CollapseAt', ('CollapseAt with {}', 'VTR with {}')),
          ('', ('CollapseAt with {}', 'CollapseAs with {}', 'VTR with {}'))]
 
 
-@contract('C11/mask._update_masks', ['C11'], MK + '::_update_masks', native=False)
+@contract('C11/mask._update_masks', ['C11', 'C05'], MK + '::_update_masks', native=False)
 def update_masks(h):
     """in a compound termination exactly the member conditions of the reported kind (to any nesting depth) get the mask;
     every other member is the SAME object as before and the And / Or structure is rebuilt with the same types and order"""
@@ -256,7 +256,7 @@ def update_masks(h):
     h.check('exactly-the-members-of-the-reported-kind-are-extended-structure-kept', 'ok', ok=all(ok) and len(ok) > 0)
 
 
-@contract('C11/mask.update_mask', ['C11'], MK + '::update_mask', native=False)
+@contract('C11/mask.update_mask', ['C11', 'C05'], MK + '::update_mask', native=False)
 def update_mask(h):
     """the termination rebuilt for a collapse report {condition description: what collapsed}: _update_masks is applied once
     per reported entry, each time to the result of the previous one, with that entry's description as the kind to look
